@@ -93,6 +93,44 @@ impl HMetric {
     }
 }
 
+/// The harness's own interpolation on flat states, component by component whatever the weights
+/// (C13): linear for R^n, the shorter arc for SO(2), spherical-linear for SO(3). None when the
+/// shortest path is not unique to within rounding (SO(2) end points half a turn apart, rotations
+/// 180 degrees apart): either way round is then "the" segment.
+pub fn harness_interp(spec: &SpaceSpec, a: &[f64], b: &[f64], t: f64) -> Option<St> {
+    let mut out = Vec::with_capacity(a.len());
+    let mut off = 0;
+    for c in layout(spec) {
+        let n = c.width();
+        let (x, y) = (&a[off..off + n], &b[off..off + n]);
+        match c {
+            Comp::RV(_) => out.extend(x.iter().zip(y).map(|(p, q)| p + (q - p) * t)),
+            Comp::SO2 => {
+                let d = (y[0] - x[0] + PI).rem_euclid(2.0 * PI) - PI;
+                if (d.abs() - PI).abs() < 1e-6 {
+                    return None;
+                }
+                out.push((x[0] + d * t + PI).rem_euclid(2.0 * PI) - PI);
+            }
+            Comp::SO3 => {
+                let mut dot = x[0] * y[0] + x[1] * y[1] + x[2] * y[2] + x[3] * y[3];
+                let sg = if dot < 0.0 { -1.0 } else { 1.0 };
+                dot *= sg;
+                if dot < 1e-6 {
+                    return None;
+                }
+                let th = dot.min(1.0).acos();
+                let (s0, s1) = if th < 1e-6 { (1.0 - t, t) } else { (((1.0 - t) * th).sin() / th.sin(), (t * th).sin() / th.sin()) };
+                let q: Vec<f64> = (0..4).map(|i| x[i] * s0 + y[i] * sg * s1).collect();
+                let nrm = q.iter().map(|v| v * v).sum::<f64>().sqrt();
+                out.extend(q.iter().map(|v| v / nrm));
+            }
+        }
+        off += n;
+    }
+    Some(out)
+}
+
 /// The motion-check resolution ("longest valid segment length") the documented law gives for a
 /// space specification, computed by the harness itself: fraction x maximum extent for R^n
 /// (diagonal of the box), SO(2) (pi) and SO(3) (pi/2); sqrt(sum (w_k L_k)^2) for compound, SE(2)
